@@ -14,6 +14,7 @@ Explicit exclusions of blocks and links are interactions like any other (C01/C02
 -/
 import PolyplyVerif.Model.Exclusions
 import PolyplyVerif.Proofs.Exclusions
+import PolyplyVerif.Proofs.ComposeLinksExcl
 
 namespace PolyplyVerif.C14
 open PolyplyVerif PolyplyVerif.Excl PolyplyVerif.C10M
@@ -218,5 +219,75 @@ theorem C14_no_dup (inp : Excl.Input) :
       rw [← hpy]
       simpa using this
     · simp [hgt] at hpt
+
+end PolyplyVerif.C14
+
+/-! ## end-to-end composition (appended; helper lemmas and bridge functions: Proofs/ComposeLinksExcl.lean) -/
+
+namespace PolyplyVerif.C14
+open PolyplyVerif PolyplyVerif.Excl PolyplyVerif.C10M
+
+/-! ### composition with the link stage (C14 ∘ C02) -/
+
+/-- **C14_effective_after_links.**  `C14_effective` on the edge list the link stage really leaves behind
+(`Links.applyLinks`, C02).  Tags and `nrexcl` as in `C14_effective`.  Two different tagged atoms are
+excluded — within `nrexcl` bonds of the molecule, or by an exclusion `expand_excl` generates — **iff**
+they are joined by a walk of at most `max (e a) (e b)` bonds in the graph `Compose.LinkedAdj`: its bonds
+are the edges of the mapped molecule plus the edges of the accepted link applications (`C02.evs`), without
+those that touch an atom a link removed.  No edge list occurs on the right-hand side. -/
+theorem C14_effective_after_links (linp : Links.Input) (nrexcl : Nat) (tags : List (Nat × Nat))
+    (hfun : TagsFunctional tags) (hmin : ∀ t ∈ tags, nrexcl ≤ t.2)
+    (a b : Nat) (ha : a ∈ tags.map (·.1)) (hb : b ∈ tags.map (·.1)) (hab : a ≠ b) :
+    (withinDist (Links.applyLinks linp).edges a b nrexcl = true ∨
+      (expandExcl ⟨nrexcl, tags, (Links.applyLinks linp).edges⟩).any (samePair (a, b)) = true) ↔
+    Compose.RelWalkLe (Compose.LinkedAdj linp) a b (max (eOf tags a) (eOf tags b)) := by
+  rw [← Compose.withinDist_applyLinks_iff, ← Bool.or_eq_true]
+  exact Bool.eq_iff_iff.mp (C14_effective ⟨nrexcl, tags, (Links.applyLinks linp).edges⟩ hfun hmin a b ha hb hab)
+
+/-- the same with the explicit (`by_atom_id`) links applied, i.e. on the molecule exactly as `expand_excl`
+sees it: the graph additionally bonds consecutive atoms of explicit interactions (`Compose.RunAdj`) -/
+theorem C14_effective_after_run (linp : Links.Input) (xs : List Links.XIxn) (s' : Links.XSt)
+    (hrun : Links.runMolecule linp xs = .ok s') (nrexcl : Nat) (tags : List (Nat × Nat))
+    (hfun : TagsFunctional tags) (hmin : ∀ t ∈ tags, nrexcl ≤ t.2)
+    (a b : Nat) (ha : a ∈ tags.map (·.1)) (hb : b ∈ tags.map (·.1)) (hab : a ≠ b) :
+    (withinDist s'.edges a b nrexcl = true ∨
+      (expandExcl ⟨nrexcl, tags, s'.edges⟩).any (samePair (a, b)) = true) ↔
+    Compose.RelWalkLe (Compose.RunAdj linp xs) a b (max (eOf tags a) (eOf tags b)) := by
+  rw [← Compose.withinDist_runMolecule_iff linp xs s' hrun, ← Bool.or_eq_true]
+  exact Bool.eq_iff_iff.mp (C14_effective ⟨nrexcl, tags, s'.edges⟩ hfun hmin a b ha hb hab)
+
+/-- the specification graph evaluated as an edge list gives the same answer as the implementation's list -/
+theorem C14_after_links_spec_edges (linp : Links.Input) (a b k : Nat) :
+    withinDist (Links.applyLinks linp).edges a b k = withinDist (Compose.linkedEdges linp) a b k :=
+  Compose.withinDist_applyLinks_eq linp a b k
+
+/-- tags of the instance `C02.exInput false` (A X B | A X B, link B–+A): first residue distance 1, second 3 -/
+def exLinkTags : List (Nat × Nat) := [(0, 1), (1, 1), (2, 1), (3, 3), (4, 3), (5, 3)]
+
+/-- Non-vacuity: the hypotheses hold on the two-residue instance of C02; atoms 2 (`B` of residue 1) and 5
+(`B` of residue 2) are two bonds apart ONLY through the link edge 2–3, not within `nrexcl = 1`, and come out
+excluded by a generated exclusion; the walk on the right-hand side exists; atoms 1 and 4 (4 bonds) do not. -/
+example : TagsFunctional exLinkTags ∧ (∀ t ∈ exLinkTags, 1 ≤ t.2) ∧
+    (Links.applyLinks (C02.exInput false)).edges = [(0, 2), (2, 1), (3, 5), (5, 4), (2, 3)] ∧
+    withinDist (Links.applyLinks (C02.exInput false)).edges 2 5 1 = false ∧
+    withinDist (C02.exInput false).edges 2 5 3 = false ∧
+    (expandExcl ⟨1, exLinkTags, (Links.applyLinks (C02.exInput false)).edges⟩).any (samePair (2, 5)) = true ∧
+    Compose.RelWalkLe (Compose.LinkedAdj (C02.exInput false)) 2 5 (max (eOf exLinkTags 2) (eOf exLinkTags 5)) ∧
+    ¬ Compose.RelWalkLe (Compose.LinkedAdj (C02.exInput false)) 1 4 (max (eOf exLinkTags 1) (eOf exLinkTags 4)) := by
+  have hf : TagsFunctional exLinkTags := by
+    intro t ht
+    simp only [exLinkTags, List.mem_cons, List.mem_nil_iff, or_false] at ht
+    rcases ht with h | h | h | h | h | h <;> subst h <;> decide
+  have hm : ∀ t ∈ exLinkTags, 1 ≤ t.2 := by
+    intro t ht
+    simp only [exLinkTags, List.mem_cons, List.mem_nil_iff, or_false] at ht
+    rcases ht with h | h | h | h | h | h <;> subst h <;> decide
+  refine ⟨hf, hm, by decide, by decide, by decide, by decide, ?_, ?_⟩
+  · exact (C14_effective_after_links (C02.exInput false) 1 exLinkTags hf hm 2 5 (by decide) (by decide) (by decide)).mp
+      (Or.inr (by decide))
+  · intro h
+    have := (C14_effective_after_links (C02.exInput false) 1 exLinkTags hf hm 1 4 (by decide) (by decide) (by decide)).mpr h
+    revert this
+    decide
 
 end PolyplyVerif.C14
